@@ -958,7 +958,7 @@ func (interp *Interpreter) cfg(root *node, sc *scope, importPath, pkgName string
 			if err != nil {
 				break
 			}
-			if n.typ != nil && isUntypedConst(c0) && (isUntypedConst(c1) || isShiftNode(n) && c1.rval.IsValid()) {
+			if (n.typ != nil || n.anc.kind == returnStmt) && isUntypedConst(c0) && (isUntypedConst(c1) || isShiftNode(n) && c1.rval.IsValid()) {
 				// An operation on untyped constants is an untyped constant, whatever the type
 				// expected by the context, which is checked when the constant is used.
 				n.typ = c0.typ
